@@ -643,7 +643,7 @@ theorem stepSpawn_G2 {r : Fin n} {s s' : St n} (h : G2 r s) (v p : Fin n) (hs : 
   unfold stepSpawn at hs
   split at hs
   · rename_i hg
-    obtain ⟨hav, hap, hvr, hvp, hqv, hov, _, _, _⟩ := hg
+    obtain ⟨hav, hap, hvr, hvp, hqv, hov, _⟩ := hg
     cases hs
     have hrv : r ≠ v := fun e => hvr e.symm
     have old : ∀ w, w ≠ v → upd s.alive v true w = true → s.alive w = true := by
